@@ -61,7 +61,8 @@ def top_harness(d, hname, kind, evexpr, sabotage=False):
     if not sabotage:
         if accepts(ty, kind):
             b.append("kani::cover!(got.is_ok());")
-            if d.has_validation():
+            # (`finite` alone can only fail on a float event: an integer event always converts to a finite float)
+            if d.has_validation() and not (d.validators == ["finite"] and kind not in ("f32", "f64")):
                 b.append("kani::cover!(got.is_err() && inner.is_ok());")
         else:
             b.append("kani::cover!(inner.is_err());")
